@@ -305,12 +305,14 @@ def main():
     # not be 'improved' by traffic it sends later
     for i in range((24000 if thorough else 60) // (run.shard[1] if thorough else 1)):
         history_case(run, rng, i)
+    for i in range((8000 if thorough else 200) // (run.shard[1] if thorough else 1)):
+        cache_history_case(run, rng, i)
     # a peer that is not bacpypes: asymmetric windows, its own acknowledgement pace, one acknowledgement withheld
     for i in range((16000 if thorough else 250) // (run.shard[1] if thorough else 1)):
         run.case(("scripted", run.shard[0], i), sample=None)
         scripted_case(run, rng, i)
     run.finish(require=("scenarios", "response_frames_compared", "request_frames_compared", "outcomes_consistent_with_limits", "history_requests",
-                        "scripted_peer_exchanges", "answer_acks_judged", "scripted_peer_answers_delivered"))
+                        "scripted_peer_exchanges", "answer_acks_judged", "scripted_peer_answers_delivered", "cache_history_requests"))
 
 
 def scripted_case(run, rng, i, params=None):
@@ -327,7 +329,13 @@ def scripted_case(run, rng, i, params=None):
                       peer_max=rng.choice([50, 128, 206, 480]), c_max=rng.choice([206, 480, 1024, 1476]),
                       req=rng.choice([5, 300, 700, 1100, 2500]), rsp=rng.choice([5, 300, 700, 1500]),
                       withhold=rng.choice([None, None, "final-ack", "final-ack-late"]), ack_every=rng.choice([None, None, 1]),
-                      retries=rng.choice([0, 1, 2]))
+                      retries=rng.choice([0, 1, 2]), grants=None)
+        if rng.random() < 0.3:
+            # the peer lowers (or raises) the window it grants in the middle of the request; it acknowledges every segment, so
+            # that each acknowledgement lies inside the window it announces
+            params["ack_every"] = 1
+            params["grants"] = rng.choice([[4, 2], [8, 8, 3, 1], [127, 4, 4, 1], [2, 2, 2, 6], [8, 1]])
+            params["req"] = rng.choice([700, 1100, 2500])
     p = params
     CK.reset()
     lan = FaultNet("lan", Plan())
@@ -336,7 +344,7 @@ def scripted_case(run, rng, i, params=None):
     st = Stack(lan, 1, events, "req", DirectApp, window=p["cw"], app_timeout=3000, segmentationSupported="segmentedBoth",
                maxApduLengthAccepted=p["c_max"], maxSegmentsAccepted=None, numberOfApduRetries=p["retries"], apduTimeout=3000, apduSegmentTimeout=2000)
     seg_size = min(p["c_max"], p["peer_max"]) - 5 - rng.choice([0, 0, 7])
-    peer = ScriptedServerPeer(lan, 2, p["peer_max"], p["grant"], p["propose"], seg_size, p["rsp"], token, withhold=p["withhold"], ack_every=p["ack_every"])
+    peer = ScriptedServerPeer(lan, 2, p["peer_max"], p["grant"], p["propose"], seg_size, p["rsp"], token, withhold=p["withhold"], ack_every=p["ack_every"], grants=p.get("grants"))
     CK.settle()
     iam = IAmRequest(iAmDeviceIdentifier=("device", 2), maxAPDULengthAccepted=p["peer_max"], segmentationSupported="segmentedBoth", vendorID=999)
     iam.pduSource = Address(2)
@@ -367,6 +375,72 @@ def scripted_case(run, rng, i, params=None):
             found.append(("answer-payload-corrupted/scripted-peer", {}))
     for k, d in found:
         run.violation(k, dict(wit, detail=d, swallowed=CK.swallowed.records[:2]))
+
+
+def cache_history_case(run, rng, i):
+    """the requester learns about its peers from I-Ams only, and devices move: the same device announces itself from another
+    address, another device takes an address over.  What is then sent to an address respects what the LAST announcement from
+    that address said"""
+    from ..vclock import CLOCK as CK
+    from ..fnet import FaultNet
+    from ..stacks import Stack, DirectApp
+    from bacpypes.apdu import IAmRequest
+    from bacpypes.pdu import Address
+    from bacpypes.vlan import Node
+    CK.reset()
+    lan = FaultNet("lan", Plan())
+    events = []
+    st = Stack(lan, 1, events, "req", DirectApp, window=4, app_timeout=3000, segmentationSupported="segmentedBoth",
+               maxApduLengthAccepted=1476, maxSegmentsAccepted=None, numberOfApduRetries=0, apduTimeout=3000, apduSegmentTimeout=2000)
+    addrs = [10, 20, 30]
+    for a in addrs:
+        Node(Address(a), lan)           # silent stations: only what is sent to them matters
+    CK.settle()
+    current = {}                        # address -> (device, max apdu, segmentation) of the last I-Am heard from it
+    where = {}                          # device -> address it announced from last
+    hist = []
+    for _ in range(rng.randrange(2, 7)):
+        dev, a = rng.choice([1, 2, 3]), rng.choice(addrs)
+        mx, seg = rng.choice([50, 128, 480, 1024]), rng.choice(["noSegmentation", "segmentedBoth", "segmentedReceive"])
+        iam = IAmRequest(iAmDeviceIdentifier=("device", dev), maxAPDULengthAccepted=mx, segmentationSupported=seg, vendorID=999)
+        iam.pduSource = Address(a)
+        hist.append((dev, a, mx, seg))
+        try:
+            st.app.deviceInfoCache.iam_device_info(iam)
+        except Exception as err:
+            run.violation("filing-an-i-am-raised/" + type(err).__name__, {"i_am_history_(device, address, max, segmentation)": hist, "error": repr(err)[:100]})
+            return
+        old = where.get(dev)
+        if old is not None and old != a and current.get(old, (None,))[0] == dev:
+            del current[old]            # the device left its old address (unless somebody else announced from there since)
+        where[dev] = a
+        current[a] = (dev, mx, seg)
+    token = 9000
+    for a, (dev, mx, seg) in sorted(current.items()):
+        token += 1
+        n0 = len(lan.frames)
+        try:
+            st.send(st.cpt_request(a, token, 300), token)
+            CK.drive(duration=8.0, max_steps=200000)
+        except Exception as err:
+            run.violation("request-after-i-am-history-raised/" + type(err).__name__, {"i_am_history_(device, address, max, segmentation)": hist, "error": repr(err)[:100]})
+            return
+        run.count("cache_history_requests")
+        run.case(("cache-history", i, a), sample=None)
+        for rec in lan.frames[n0:]:
+            d = decode_frame(rec)
+            ap = d.get("apci")
+            if not ap or d["src"] != "1" or d["dst"] != str(a) or ap["type"] != W.CONFIRMED:
+                continue
+            wit = {"i_am_history_(device, address, max, segmentation)": hist, "address": a, "last_announcement_from_it": [dev, mx, seg],
+                   "apdu_len": d["apdu_len"], "segmented": bool(ap["seg"])}
+            if d["apdu_len"] > mx:
+                run.violation("request-apdu-longer-than-the-last-announcement-from-that-address", wit)
+                return
+            if ap["seg"] and seg not in CAN_RX:
+                run.violation("segmented-request-to-address-whose-last-announcement-said-no-segments", wit)
+                return
+    run.count("cache_histories")
 
 
 def history_case(run, rng, i):
